@@ -53,6 +53,7 @@ type Fault struct {
 //	            the new text (for query and path: as it goes on the wire, i.e. already escaped - or deliberately not)
 //	lie-length  the request head declares a Content-Length of Arg (absurdly large) although the body is as short as it
 //	            is; the connection breaks after the last body byte (an oversized declared size)
+//	add-query   the raw query pair Arg is appended to the request line
 //	dup-query   the query parameter named Arg (or "#i": the i-th) is sent twice
 //	flip        the byte at wire offset At of the request is XORed with 0x20 (unstructured corruption)
 //	append      a re-framing intermediary forwards the request with Arg appended to the body (framing stays valid)
@@ -256,6 +257,13 @@ func (t *SimTransport) Do(req *http.Request) (*http.Response, error) {
 		if mangle(req, f.Arg, f.Val) {
 			ci.Rec.fire()
 		}
+	case "add-query":
+		// an intermediary appends a raw query pair
+		if req.URL.RawQuery != "" {
+			req.URL.RawQuery += "&"
+		}
+		req.URL.RawQuery += f.Arg
+		ci.Rec.fire()
 	case "drop-field", "dup-field":
 		if f.Val != "" {
 			// the same intermediary also appends a query pair (Val, raw): body fields and query parameters are
@@ -345,7 +353,12 @@ func (t *SimTransport) attempt(req *http.Request, ci *callInfo, name string, att
 		defer close(writeDone)
 		var err error
 		if kind == "append" && req.Body != nil && req.Body != http.NoBody {
-			err = reframe(req, wire, func(ct string, body []byte) ([]byte, bool) { return append(body, f.Arg...), true })
+			extra := f.Arg
+			if strings.HasPrefix(extra, "BIGFORM:") {
+				// ten MiB of padding in front of the text: what lies behind a size limit must not simply be cut off
+				extra = "&pad=" + strings.Repeat("a", 10<<20) + extra[len("BIGFORM:"):]
+			}
+			err = reframe(req, wire, func(ct string, body []byte) ([]byte, bool) { return append(body, extra...), true })
 			ci.Rec.fire()
 		} else if kind == "lie-length" && req.Body != nil && req.Body != http.NoBody {
 			// the request is serialised as it is; then the declared length in its head is replaced by Arg. The peer gets
